@@ -1559,6 +1559,85 @@ func (g *gen) aeadOpenOrder() []string {
 	return keys
 }
 
+// stmtsOneLine prints statements with whitespace collapsed (comments are not part of the AST nodes).
+func stmtsOneLine(ss []ast.Stmt) []string {
+	var out []string
+	for _, s := range ss {
+		out = append(out, showFlat(s))
+	}
+	return out
+}
+
+// showFlat renders a node (possibly spanning lines) with all white space collapsed.
+func showFlat(n ast.Node) string {
+	var b strings.Builder
+	if err := printer.Fprint(&b, fset, n); err != nil {
+		failf(n.Pos(), "cannot render source: %v", err)
+	}
+	return strings.Join(strings.Fields(b.String()), " ")
+}
+
+// aeadOpenHead: every top-level statement of aesCBCAEAD.Open up to and including the `if` that
+// contains hmac.Equal (how the tag is cut off, recomputed and compared), and hmacTag's return.
+func (g *gen) aeadOpenHead() []string {
+	c := g.aead.method("aesCBCAEAD", "Open")
+	for i, s := range c.stmts() {
+		found := false
+		if is, ok := s.(*ast.IfStmt); ok {
+			ast.Inspect(is.Cond, func(n ast.Node) bool {
+				if se, ok := n.(*ast.SelectorExpr); ok && c.isPkgSel(se, "crypto/hmac", "Equal") {
+					found = true
+				}
+				return true
+			})
+		}
+		if found {
+			return stmtsOneLine(c.stmts()[:i+1])
+		}
+	}
+	failf(c.fd.Pos(), "aesCBCAEAD.Open: no top-level `if` on hmac.Equal")
+	return nil
+}
+
+func (g *gen) aeadHmacTagReturn() string {
+	c := g.aead.method("aesCBCAEAD", "hmacTag")
+	ss := c.stmts()
+	r, ok := ss[len(ss)-1].(*ast.ReturnStmt)
+	if !ok {
+		failf(c.fd.Pos(), "hmacTag does not end in a return")
+	}
+	return showFlat(r)
+}
+
+// kwTail: the statements of Wrap / Unwrap after the round loop (output assembly; the IV check).
+func (g *gen) kwTail(fn string) []string {
+	c := g.kw.fnIn(fn, "keywrap.go")
+	for i, s := range c.stmts() {
+		if fs, ok := s.(*ast.ForStmt); ok && len(fs.Body.List) == 1 {
+			if _, ok := fs.Body.List[0].(*ast.ForStmt); ok {
+				return stmtsOneLine(c.stmts()[i+1:])
+			}
+		}
+	}
+	failf(c.fd.Pos(), "%s: no round loop", fn)
+	return nil
+}
+
+// kwHead: the statements of Wrap / Unwrap between the length guards and the round loop (register set-up).
+func (g *gen) kwHead(fn string) []string {
+	c := g.kw.fnIn(fn, "keywrap.go")
+	n := len(g.kwGuards(fn))
+	for i, s := range c.stmts() {
+		if fs, ok := s.(*ast.ForStmt); ok && len(fs.Body.List) == 1 {
+			if _, ok := fs.Body.List[0].(*ast.ForStmt); ok {
+				return stmtsOneLine(c.stmts()[n:i])
+			}
+		}
+	}
+	failf(c.fd.Pos(), "%s: no round loop", fn)
+	return nil
+}
+
 func (g *gen) aeadHmacTag() (macInput []string, al string) {
 	c := g.aead.method("aesCBCAEAD", "hmacTag")
 	ps := c.params()
@@ -1896,6 +1975,14 @@ func (g *gen) generate() string {
 	g.pf("/-- aeskw: loop headers and statements of the round body of Wrap / Unwrap, rendered. -/\n")
 	g.pf("def aeskwWrapRound : List String := %s\n", qlist(g.kwRound("Wrap")))
 	g.pf("def aeskwUnwrapRound : List String := %s\n", qlist(g.kwRound("Unwrap")))
+	g.pf("/-- aeskw: register set-up before, and the statements after, the round loop. -/\n")
+	g.pf("def aeskwWrapHead : List String := %s\n", qlist(g.kwHead("Wrap")))
+	g.pf("def aeskwWrapTail : List String := %s\n", qlist(g.kwTail("Wrap")))
+	g.pf("def aeskwUnwrapHead : List String := %s\n", qlist(g.kwHead("Unwrap")))
+	g.pf("def aeskwUnwrapTail : List String := %s\n", qlist(g.kwTail("Unwrap")))
+	g.pf("/-- aescbcaead: Open up to and including the tag comparison; what hmacTag returns. -/\n")
+	g.pf("def aescbcaeadOpenHead : List String := %s\n", qlist(g.aeadOpenHead()))
+	g.pf("def aescbcaeadHmacTagReturn : String := %s\n", q(g.aeadHmacTagReturn()))
 
 	g.pf("\n")
 	seen := map[string]bool{}
